@@ -932,3 +932,40 @@ for _i in [1, 2, 3, 4, 5, 6, 7, 8, 10, 11, 12, 13, 14, 15, 16, 17, 18, 19, 20]:
     VARIANTS.append(dict(id="unrelated-public-c%02d" % _i, prop="C%02d" % _i, expect="silent", rule=None,
                          edits=[(UT, "\ndef sorted_tuple(iterable):", NEW_PUBLIC + "\n\ndef sorted_tuple(iterable):")],
                          what="unrelated public helpers (file output, networkx conversion, a description string) are added to utils.py"))
+NEW_MODULE = '''"""A new, unrelated module: evaluation metrics (uses constructs and libraries the analysis does not model)."""
+from __future__ import annotations
+import dataclasses
+import numpy as np
+from sempler import utils
+
+
+@dataclasses.dataclass
+class Score:
+    name: str
+    value: float = 0.0
+
+    def bump(self, by: float = 1.0) -> "Score":
+        self.value += by
+        return self
+
+
+def structural_hamming_distance(A, B):
+    A, B = (np.asarray(A) != 0), (np.asarray(B) != 0)
+    if (n := len(A)) != len(B):
+        raise ValueError("size mismatch")
+    return int(np.sum(A != B)), n
+
+
+def skeleton_f1(A, B, *, eps=1e-12):
+    sa, sb = utils.skeleton(A), utils.skeleton(B)
+    tp = float(np.sum(np.logical_and(sa, sb))) / 2
+    match (tp > 0):
+        case True:
+            return 2 * tp / (np.sum(sa) / 2 + np.sum(sb) / 2 + eps)
+        case _:
+            return 0.0
+'''
+for _i in [1, 2, 3, 4, 5, 6, 7, 8, 10, 11, 12, 13, 14, 15, 16, 17, 18, 19, 20]:
+    VARIANTS.append(dict(id="unrelated-module-c%02d" % _i, prop="C%02d" % _i, expect="silent", rule=None,
+                         edits=[("@newfile", "sempler/metrics.py", NEW_MODULE)],
+                         what="a new unrelated module sempler/metrics.py (dataclass, walrus, match, keyword-only args)"))
